@@ -18,6 +18,7 @@
 
 mod util;
 mod roms;
+mod cpucase;
 mod s_c01;
 mod s_c02;
 mod s_c03;
